@@ -72,8 +72,14 @@ func e2eUniverse(arch string) []*synthrepo.Pkg {
 	barE := pkgT{ID: "SPDXRef-Package-bar", Name: "bar", Version: "2.0-r1"}
 	c1, c2 := pkgT{ID: "SPDXRef-Package-c1", Name: "c1", Version: "1"}, pkgT{ID: "SPDXRef-Package-c2", Name: "c2", Version: "2"}
 	us := pkgT{ID: "SPDXRef-Package-lib.x-2.0", Name: "lib+x", Version: "2.0_rc1-r0"}
+	other := map[string]string{"x86_64": "aarch64", "aarch64": "x86_64"}[arch]
+	tzE := pkgT{ID: "SPDXRef-Package-tzdata-2024a-r1", Name: "tzdata", Version: "2024a-r1", Sums: [][2]string{{"SHA256", "0a0b"}}}
+	tzSrc := pkgT{ID: "SPDXRef-Package-tzdata-upstream", Name: "tzdata", Version: "2024a"} // same name, NOT described, listed first
+	bazOrigin := pkgT{ID: "SPDXRef-Package-baz-3.1-r0", Name: "baz", Version: "3.1-r0"}
 	mk := func(p *synthrepo.Pkg) *synthrepo.Pkg {
-		p.Arch = arch
+		if p.Arch == "" { // "noarch" and foreign-architecture packages keep theirs; they live in this architecture's directory all the same
+			p.Arch = arch
+		}
 		if p.Origin == "" {
 			p.Origin = p.Name
 		}
@@ -101,26 +107,80 @@ func e2eUniverse(arch string) []*synthrepo.Pkg {
 		mk(&synthrepo.Pkg{Name: "gtk+", Version: "3.24-r0", Origin: "gtk"}),
 		mk(&synthrepo.Pkg{Name: "gtkC43", Version: "3.24-r0", Origin: "gtkc"}),
 		mk(&synthrepo.Pkg{Name: "Zlib.NG", Version: "2.1.5-r0", Origin: "zlib-ng"}),
+		// architecture-independent packages (A:noarch in the index and in the installed database)
+		mk(&synthrepo.Pkg{Name: "ca-certificates-bundle", Version: "20240226-r0", Arch: "noarch", Origin: "ca-certificates"}),
+		// ... one with an embedded SBOM found through the <name>.spdx.json fallback, whose package list starts with a
+		// same-named element that is NOT described (the upstream source), the described apk element after it
+		mk(&synthrepo.Pkg{Name: "tzdata", Version: "2024a-r1", Arch: "noarch", Files: append(append([]synthrepo.File{}, sbomDirs...),
+			sbomFile("tzdata.spdx.json", &docT{Pkgs: []pkgT{tzSrc, tzE}, Desc: []string{tzE.ID},
+				Rels: []relT{{tzE.ID, "GENERATED_FROM", tzSrc.ID}, {"SPDXRef-DOCUMENT", "DESCRIBES", tzE.ID}}}))}),
+		// a package recorded for the OTHER architecture (a cross toolchain stub) installed into this image
+		mk(&synthrepo.Pkg{Name: "cross-stub", Version: "1.0-r0", Arch: other}),
+		// a subpackage whose SBOM, found through the <name>.spdx.json fallback, describes its differently named origin package only
+		mk(&synthrepo.Pkg{Name: "libbaz", Version: "3.1-r0", Origin: "baz", Files: append(append([]synthrepo.File{}, sbomDirs...),
+			sbomFile("libbaz.spdx.json", &docT{Pkgs: []pkgT{bazOrigin, src}, Desc: []string{bazOrigin.ID},
+				Rels: []relT{{bazOrigin.ID, "GENERATED_FROM", src.ID}}}))}),
 	}
+}
+
+// <dir>/<arch>/{APKINDEX.tar.gz,*.apk} with the packages of byDir[arch] whatever architecture they record themselves
+// (synthrepo.Write files a package under its own Arch; noarch and foreign packages must sit in the directory of the
+// architecture that installs them)
+func e2eWriteRepo(dir string, key *synthrepo.Key, byDir map[string][]*synthrepo.Pkg) (*synthrepo.Repo, error) {
+	r := &synthrepo.Repo{Dir: dir, Key: key, Built: map[string][]*synthrepo.Built{}}
+	for arch, pkgs := range byDir {
+		ad := filepath.Join(dir, arch)
+		if err := os.MkdirAll(ad, 0o755); err != nil {
+			return nil, err
+		}
+		var text strings.Builder
+		for _, p := range pkgs {
+			b, err := p.Build(key)
+			if err != nil {
+				return nil, fmt.Errorf("building %s-%s: %w", p.Name, p.Version, err)
+			}
+			r.Built[arch] = append(r.Built[arch], b)
+			if err := os.WriteFile(filepath.Join(ad, b.Filename()), b.Bytes, 0o644); err != nil {
+				return nil, err
+			}
+			text.WriteString(synthrepo.IndexEntry(b))
+		}
+		whole, _, err := synthrepo.IndexArchive(text.String(), key, "RSA256")
+		if err != nil {
+			return nil, err
+		}
+		if err := os.WriteFile(filepath.Join(ad, "APKINDEX.tar.gz"), whole, 0o644); err != nil {
+			return nil, err
+		}
+	}
+	kd := filepath.Join(dir, "keys")
+	if err := os.MkdirAll(kd, 0o755); err != nil {
+		return nil, err
+	}
+	if err := os.WriteFile(filepath.Join(kd, key.Name), key.Pub, 0o644); err != nil {
+		return nil, err
+	}
+	return r, nil
 }
 
 func e2eWorlds(tier string) []e2eWorld {
 	x, a := "x86_64", "aarch64"
 	ws := []e2eWorld{
-		{"single-layer", []string{"baselayout", "musl"}, []string{x}, -1, ""},
+		{"single-layer", []string{"baselayout", "musl", "ca-certificates-bundle"}, []string{x}, -1, ""},
+		{"noarch-only", []string{"tzdata"}, []string{x}, -1, ""},
 		{"odd-names", []string{"baselayout", "musl", "lib+x", "py3-typing_extensions", "Zlib.NG"}, []string{x}, -1, "https://github.com/o/r@0123abc"},
-		{"embedded", []string{"baselayout", "foo", "foo-doc", "bar", "bad"}, []string{x}, -1, ""},
-		{"multi-arch", []string{"baselayout", "musl", "foo", "lib+x"}, []string{x, a}, -1, "git+ssh://github.com/o/r.git@fedcba9"},
-		{"multi-layer", []string{"baselayout", "musl", "foo", "foo-doc", "bar", "py3-typing_extensions"}, []string{x}, 3, ""},
+		{"embedded", []string{"baselayout", "foo", "foo-doc", "bar", "bad", "tzdata", "libbaz"}, []string{x}, -1, ""},
+		{"multi-arch", []string{"baselayout", "musl", "foo", "lib+x", "tzdata", "cross-stub"}, []string{x, a}, -1, "git+ssh://github.com/o/r.git@fedcba9"},
+		{"multi-layer", []string{"baselayout", "musl", "foo", "foo-doc", "bar", "py3-typing_extensions", "ca-certificates-bundle", "tzdata"}, []string{x}, 3, ""},
 		{"multi-layer-multi-arch", []string{"baselayout", "musl", "foo", "foo-doc", "lib+x", "Zlib.NG"}, []string{a, x}, 2, "https://example.com/no-revision"},
 		{"no-os-release", []string{"musl", "bar"}, []string{a}, -1, ""},
 		{"id-collision", []string{"baselayout", "gtk+", "gtkC43"}, []string{x}, -1, ""},
 	}
 	if tier == "thorough" {
 		for b := 0; b <= 6; b++ {
-			ws = append(ws, e2eWorld{fmt.Sprintf("budget-%d", b), []string{"baselayout", "musl", "foo", "foo-doc", "bar", "bad", "lib+x", "py3-typing_extensions", "Zlib.NG"}, []string{x, a}, b, ""})
+			ws = append(ws, e2eWorld{fmt.Sprintf("budget-%d", b), []string{"baselayout", "musl", "foo", "foo-doc", "bar", "bad", "lib+x", "py3-typing_extensions", "Zlib.NG", "tzdata", "cross-stub", "libbaz"}, []string{x, a}, b, ""})
 		}
-		ws = append(ws, e2eWorld{"everything", []string{"baselayout", "musl", "foo", "foo-doc", "bar", "bad", "lib+x", "py3-typing_extensions", "Zlib.NG", "gtk+", "gtkC43"}, []string{x, a}, -1, "https://github.com/o/r@0123abc"})
+		ws = append(ws, e2eWorld{"everything", []string{"baselayout", "musl", "foo", "foo-doc", "bar", "bad", "lib+x", "py3-typing_extensions", "Zlib.NG", "gtk+", "gtkC43", "ca-certificates-bundle", "tzdata", "cross-stub", "libbaz"}, []string{x, a}, -1, "https://github.com/o/r@0123abc"})
 	}
 	return ws
 }
@@ -199,6 +259,8 @@ func e2eParseInstalled(db string) []apkT {
 			cur.Name = v
 		case 'V':
 			cur.Version = v
+		case 'A':
+			cur.Arch = v
 		case 'C':
 			if strings.HasPrefix(v, "Q1") {
 				if b, err := base64.StdEncoding.DecodeString(v[2:]); err == nil {
@@ -301,11 +363,11 @@ func e2eStage(out string, seed uint64, tier string) error {
 	if err != nil {
 		return err
 	}
-	var all []*synthrepo.Pkg
+	byDir := map[string][]*synthrepo.Pkg{}
 	for _, a := range []string{"x86_64", "aarch64"} {
-		all = append(all, e2eUniverse(a)...)
+		byDir[a] = e2eUniverse(a)
 	}
-	repo, err := synthrepo.Write(filepath.Join(tmpDir, "repo"), key, all)
+	repo, err := e2eWriteRepo(filepath.Join(tmpDir, "repo"), key, byDir)
 	if err != nil {
 		return err
 	}
